@@ -239,8 +239,62 @@ def run_tasks(modname, tasks):
     if n <= 1 or os.environ.get("VF_SERIAL"):
         return [_worker((modname, t)) for t in tasks]
     ctx = mp.get_context("spawn")
+    out = []
     with ctx.Pool(n, maxtasksperchild=None) as pool:
-        return list(pool.imap_unordered(_worker, [(modname, t) for t in tasks], chunksize=1))
+        it = pool.imap_unordered(_worker, [(modname, t) for t in tasks], chunksize=1)
+        pids = [p.pid for p in pool._pool]
+        last_cpu, last_progress = _cpu_of(pids), time.time()
+        while len(out) < len(tasks):
+            try:
+                out.append(it.next(timeout=20))
+                last_progress = time.time()
+                continue
+            except mp.TimeoutError:
+                pass
+            except StopIteration:
+                break
+            cpu = _cpu_of(pids)
+            if cpu > last_cpu + 0.5:
+                last_cpu, last_progress = cpu, time.time()
+            elif time.time() - last_progress > STALL_S:
+                # no result and no CPU time spent by any worker (or its children) for STALL_S seconds: a worker hangs (observed once:
+                # a pyarrow dataset scan waiting forever on an Arrow future). A budget/time problem is INCONCLUSIVE, never a violation.
+                r = Result()
+                r.inconclusive.append(f"{len(tasks) - len(out)} of {len(tasks)} task(s) abandoned: no result and no CPU progress in any worker for {STALL_S}s (hung worker)")
+                out.append(r.to_dict())
+                pool.terminate()
+                break
+    return out
+
+
+STALL_S = int(os.environ.get("VF_STALL_S", "240"))
+
+
+def _cpu_of(pids):
+    """CPU seconds (user+system) consumed so far by these processes and all their descendants."""
+    want, ppid, cpu = set(pids), {}, {}
+    try:
+        for d in os.listdir("/proc"):
+            if not d.isdigit():
+                continue
+            try:
+                with open(f"/proc/{d}/stat") as f:
+                    rest = f.read().rsplit(")", 1)[1].split()
+                ppid[int(d)] = int(rest[1])
+                cpu[int(d)] = (int(rest[11]) + int(rest[12])) / float(os.sysconf("SC_CLK_TCK"))
+            except (OSError, IndexError, ValueError):
+                continue
+    except OSError:
+        return 0.0
+    total = 0.0
+    for p in cpu:
+        q, hops = p, 0
+        while q in ppid and hops < 50:
+            if q in want:
+                total += cpu[p]
+                break
+            q, hops = ppid[q], hops + 1
+    return total
 
 
 def main(argv=None):
@@ -367,6 +421,8 @@ def main(argv=None):
     cov.update(total.extra)
     if total.inconclusive:
         cov["inconclusive"] = total.inconclusive[:20]
+        for msg in total.inconclusive[:5]:
+            print(f"INCONCLUSIVE property={prop} {msg}")
     ev = {
         "property_id": prop,
         "tier": a.tier,
